@@ -14,7 +14,6 @@ import (
 	"encoding/binary"
 	"fmt"
 	"math"
-	"os"
 	"path/filepath"
 	"runtime/debug"
 	"sort"
@@ -59,14 +58,14 @@ type Config struct {
 
 // Op is one operation of a history, with explicit arguments.
 type Op struct {
-	K   string `json:"k"`
-	D   uint32 `json:"d,omitempty"`    // grow delta
-	Off uint32 `json:"off,omitempty"`  // address / offset
+	K    string `json:"k"`
+	D    uint32 `json:"d,omitempty"`    // grow delta
+	Off  uint32 `json:"off,omitempty"`  // address / offset
 	Off2 uint32 `json:"off2,omitempty"` // second address (gsl)
-	Imm int    `json:"imm,omitempty"`  // index into imms (static offset of guest accesses)
-	W   string `json:"w,omitempty"`    // width: 8 16 32 64 f32 f64 bytes string
-	N   uint32 `json:"n,omitempty"`    // byte count for Read/Write
-	V   uint64 `json:"v,omitempty"`    // value / fill seed
+	Imm  int    `json:"imm,omitempty"`  // index into imms (static offset of guest accesses)
+	W    string `json:"w,omitempty"`    // width: 8 16 32 64 f32 f64 bytes string
+	N    uint32 `json:"n,omitempty"`    // byte count for Read/Write
+	V    uint64 `json:"v,omitempty"`    // value / fill seed
 }
 
 // Case is the replayable unit.
@@ -346,8 +345,8 @@ func fullModule(c Config) []byte {
 // ---------------------------------------------------------------- reference model
 
 type model struct {
-	pages, bound uint32
-	mem          map[uint32][]byte // page index -> 64 KiB, only pages ever written
+	pages, bound                                   uint32
+	mem                                            map[uint32][]byte // page index -> 64 KiB, only pages ever written
 	okGrow, failGrow, guestGrow, hostGrow, edgeOps int
 }
 
@@ -377,8 +376,16 @@ func (m *model) set(a uint64, b byte) {
 
 func (m *model) read(a uint64, n int) []byte {
 	r := make([]byte, n)
-	for i := range r {
-		r[i] = m.get(a + uint64(i))
+	for i := 0; i < n; {
+		x := a + uint64(i)
+		k := int(pageSize - x&0xffff)
+		if k > n-i {
+			k = n - i
+		}
+		if p := m.mem[uint32(x>>16)]; p != nil {
+			copy(r[i:i+k], p[x&0xffff:])
+		}
+		i += k
 	}
 	return r
 }
@@ -520,11 +527,8 @@ func pattern(seed uint64, n int) []byte {
 	return b
 }
 
-// failure describes a mismatch; class is "" for an ordinary violation or a finding id.
-type failure struct {
-	msg   string
-	class string
-}
+// failure describes a mismatch with the model.
+type failure struct{ msg string }
 
 func failf(f string, a ...any) *failure { return &failure{msg: fmt.Sprintf(f, a...)} }
 
@@ -533,20 +537,6 @@ type runner struct {
 	in *instance
 	m  *model
 	c  Config
-}
-
-// classify attaches a known-finding class to a failure when the failure is of that class.
-func (r *runner) classify(f *failure, op Op) *failure {
-	if f == nil {
-		return nil
-	}
-	if r.c.Engine == "compiler" && r.m.pages == maxPages && !strings.Contains(f.msg, "runtime error") {
-		f.class = findMemLen
-	}
-	if strings.Contains(f.msg, "slice bounds out of range") && r.m.pages == maxPages {
-		f.class = findWrap
-	}
-	return f
 }
 
 // checkSizes: guest memory.size, host Size() and Grow(0) agree with the model.
@@ -796,10 +786,7 @@ func (r *runner) step(op Op) *failure {
 		want := binary.LittleEndian.Uint64(buf[:])
 		got := res[0]
 		if w.bytes < 8 {
-			got &= 1<<(8*uint(w.bytes)) - 1
-			if w.vt == i32 && uint32(res[0]) != uint32(want) {
-				got = uint64(uint32(res[0]))
-			}
+			got = uint64(uint32(got)) // i32 / f32 result: the value is the low half of the slot
 		}
 		if got != want {
 			return failf("%s: loaded %#x, model has %#x", desc, got, want)
@@ -1035,7 +1022,7 @@ func runCase(c Case) (f *failure, st *model, skipped bool) {
 	}
 	m := &model{pages: cfg.Min, bound: cfg.bound(), mem: map[uint32][]byte{}}
 	r := &runner{in: in, m: m, c: cfg}
-	if f := r.classify(r.checkSizes("right after instantiation"), Op{}); f != nil {
+	if f := r.checkSizes("right after instantiation"); f != nil {
 		f.msg = fmt.Sprintf("configuration %v: %s", cfg, f.msg)
 		return f, m, false
 	}
@@ -1055,20 +1042,17 @@ func runCase(c Case) (f *failure, st *model, skipped bool) {
 			in.alloc.st.mu.Unlock()
 		}
 		if f != nil {
-			f = r.classify(f, op)
 			f.msg = fmt.Sprintf("configuration %v, step %d %+v: %s", cfg, i, op, f.msg)
 			return f, m, false
 		}
 	}
 	if f := r.dirty("at the end of the history"); f != nil {
-		f = r.classify(f, Op{})
 		f.msg = fmt.Sprintf("configuration %v: %s", cfg, f.msg)
 		return f, m, false
 	}
 	// a few never-written places read as zero
 	for _, a := range []uint64{0, m.size() / 2, sat(m.size(), 64)} {
 		if f := r.window("at the end of the history", a, 64); f != nil {
-			f = r.classify(f, Op{})
 			f.msg = fmt.Sprintf("configuration %v: %s", cfg, f.msg)
 			return f, m, false
 		}
@@ -1112,6 +1096,7 @@ var (
 	probeOnce              sync.Once
 	hasMemLen32, hasWrap   bool
 	probeMemLen, probeWrap Case
+	probeViolations        []string
 )
 
 // probes runs the specific inputs of the two defects known on the pinned tree. When one still
@@ -1124,7 +1109,9 @@ func probes() {
 			Ops: []Op{{K: "gsize"}, {K: "gload", W: "8", Off: 0}, {K: "gstore", W: "32", Off: 16, V: 0x11223344}}}
 		if f, _, _ := runCase(probeMemLen); f != nil {
 			hasMemLen32 = true
-			evid.Finding(findMemLen, "known-memlen", probeMemLen, "%s", f.msg)
+			if evid.Finding(findMemLen, "known-memlen", probeMemLen, "%s", f.msg) {
+				probeViolations = append(probeViolations, f.msg)
+			}
 		}
 		probeWrap = Case{Cfg: Config{Engine: "interpreter", Min: 65536, Max: -1, Limit: -1, Alloc: "mmap"},
 			Ops: []Op{{K: "hwrite", W: "64", Off: 0xfffffff8, V: 0x8877665544332211},
@@ -1133,7 +1120,9 @@ func probes() {
 				{K: "hread", W: "f64", Off: 0xfffffff8}, {K: "hread", W: "16", Off: 0xfffffffe}, {K: "hread", W: "bytes", Off: 0xfffffff0, N: 16}}}
 		if f, _, _ := runCase(probeWrap); f != nil {
 			hasWrap = true
-			evid.Finding(findWrap, "known-wrap", probeWrap, "%s", f.msg)
+			if evid.Finding(findWrap, "known-wrap", probeWrap, "%s", f.msg) {
+				probeViolations = append(probeViolations, f.msg)
+			}
 		}
 		debug.FreeOSMemory()
 	})
@@ -1292,8 +1281,8 @@ func genDelta(t *rapid.T, g *genState, c Config) uint32 {
 	}
 	// growing a Go-heap backed buffer copies/zeroes in proportion to the new size: keep the
 	// successful ones below the heavy threshold unless growth is free (mmap / pre-allocated capacity).
-	if uint64(g.pages)+uint64(d) <= uint64(g.bound) && d > 0 && !c.cheapGrow() && !(c.CapMax && c.Alloc == "default") && !(c.CapMax && c.Alloc == "slice") && !c.Shared {
-		if g.pages+d > heavyPage && g.pages+d > g.pages {
+	if uint64(g.pages)+uint64(d) <= uint64(g.bound) && d > 0 && !c.cheapGrow() {
+		if g.pages+d > heavyPage {
 			evid.Label("avoided-heavy-grow", 1)
 			if g.pages+1 <= heavyPage && g.pages+1 <= g.bound {
 				d = 1
@@ -1498,10 +1487,22 @@ func labelsOf(c Case, m *model, skipped bool) (bool, []string) {
 	return nt, l
 }
 
-// report routes a failure: a reproduced known-finding class goes through evid.Finding.
-func report(t evid.TB, check string, c Case, f *failure) {
-	t.Helper()
-	evid.Fail(t, c, "%s", f.msg)
+// TestKnownFindings re-runs the specific inputs of the defects known on the pinned tree
+// (see probes); a reproduced one is a KNOWN-FINDING when listed as open, else a violation.
+func TestKnownFindings(t *testing.T) {
+	if evid.ReplayPath() != "" {
+		t.Skip()
+	}
+	probes()
+	for _, m := range probeViolations {
+		t.Errorf("%s", m)
+	}
+	if !hasMemLen32 {
+		evid.Note("known defect %s did not reproduce: 65536-page memories are explored on the compiler too", findMemLen)
+	}
+	if !hasWrap {
+		evid.Note("known defect %s did not reproduce: accesses ending at 2^32 are explored", findWrap)
+	}
 }
 
 func TestHistories(t *testing.T) {
@@ -1514,7 +1515,7 @@ func TestHistories(t *testing.T) {
 		evid.Journal(c)
 		f, m, skipped := runCase(c)
 		if f != nil {
-			report(t, "histories", c, f)
+			evid.Fail(t, c, "%s", f.msg)
 		}
 		nt, l := labelsOf(c, m, skipped)
 		evid.Case(keyOf(c), nt, l...)
@@ -1782,5 +1783,3 @@ func TestReplay(t *testing.T) {
 		t.Fatal(f.msg)
 	}
 }
-
-var _ = os.Getenv
